@@ -362,6 +362,7 @@ theorem encVal_inv {v : Spec.Val} {v' : TraceSpec.Val} (h : encVal v = some v') 
   | f64 b => simp [encVal] at h
   | bool b => simp [encVal] at h; exact .inr (.inl ⟨b, rfl, h.symm⟩)
   | unit => simp [encVal] at h; exact .inr (.inr ⟨rfl, h.symm⟩)
+  | enum t k fs => simp [encVal] at h
 
 theorem wrap_i32 (x : Int) : Spec.wrap .i32 x = TraceSpec.wrap32 x := by
   have h1 : ((2 : Int) ^ Spec.ITy.i32.bits) = 4294967296 := by decide
@@ -629,6 +630,8 @@ theorem simE_step (n : Nat) (ih : SimAll fnsS fnsT n)
     obtain ⟨b', hb, rfl⟩ := Option.map_eq_some_iff.mp htr
     simp only [Spec.evalExpr]
     exact Sim.succ (fun m => by simp only [TraceSpec.evalExpr]) (ihB b b' eS eT hb hrel)
+  | ctor t k args => simp only [trE] at htr; cases htr
+  | match_ s arms => simp only [trE] at htr; cases htr
   | ret e =>
     cases e with
     | none =>
